@@ -2,11 +2,7 @@
 
 package backend
 
-import (
-	"fmt"
-	"sort"
-	"strings"
-)
+import "fmt"
 
 // VerifConn is the proxy's belief about one pooled backend connection.
 type VerifConn struct {
@@ -27,15 +23,7 @@ func verifBelief(dc *DirectConnection) VerifConn {
 	for _, x := range dc.sessionVariables.GetAll() {
 		v.Vars[x.Name()] = fmt.Sprint(x.Get())
 	}
-	// peek at the unused set without clearing it
-	un := dc.sessionVariables.GetUnusedAndClear()
-	for k := range un {
-		v.Unused = append(v.Unused, k)
-	}
-	sort.Strings(v.Unused)
-	if len(un) > 0 {
-		panic("verif: unused session variables outside a SET round trip: " + strings.Join(v.Unused, ","))
-	}
+	v.Unused = dc.sessionVariables.VerifUnused()
 	return v
 }
 
